@@ -96,9 +96,9 @@ Definition step (s : sys) (e : ev) : sys * N :=
       if negb delivered then (s1, c_lost)
       else if (fst (snd l) =? fst (pos_of (rlog s1))) && (snd (snd l) =? snd (pos_of (rlog s1)))
            then ({| plog := plog s1; phalt := phalt s1; rlock := Some l; rlog := rlog s1; olog := olog s1; ohalt := ohalt s1 |}, c_ok)
-           else (* WaitPosExact fails: R releases at the primary but keeps believing (db.go:377) *)
+           else (* WaitPosExact fails: R releases at the primary and forgets the lock (db.go AcquireRemoteHaltLock) *)
              let s2 := release_primary s1 (fst l) in
-             ({| plog := plog s2; phalt := phalt s2; rlock := Some l; rlog := rlog s2; olog := olog s2; ohalt := ohalt s2 |}, c_refused)
+             ({| plog := plog s2; phalt := phalt s2; rlock := None; rlog := rlog s2; olog := olog s2; ohalt := ohalt s2 |}, c_refused)
     end
   | ELocalWrite post =>
     match phalt s with
